@@ -17,7 +17,7 @@ Definition CplT (now : Z) (s : state) : Prop :=
 
 Definition tirr (e : ev) : bool :=
   match e with
-  | EvCreated (Tm _) _ _ | EvRemoved (Tm _) | EvNow _ | EvAct _ _ _ => false
+  | EvCreated (Tm _) _ _ | EvRemoved (Tm _) | EvNow _ | EvAct _ _ _ | EvWait _ => false
   | _ => true
   end.
 
@@ -201,7 +201,7 @@ Lemma CplT_closing_phase fuel n s : CplT n s -> CplT n (closing_phase fuel s).
 Proof.
   revert s. induction fuel as [|f IH]; intros s H; cbn [closing_phase]; [auto with cplT|].
   destruct (closing s) as [|i r]; [exact H|]. sproj.
-  destruct (alookup Z.eqb i (clients s)) as [c|]; [destruct (c_cb c)|]; apply IH; auto 8 with cplT.
+  destruct (alookup Z.eqb i (clients s)) as [c|]; [destruct (c_cb c); [|destruct (c_rm c)]|]; apply IH; auto 8 with cplT.
 Qed.
 
 Lemma CplT_introduce n e k i acc s : CplT n s -> CplT n (introduce e k i acc s).
@@ -222,16 +222,45 @@ Proof.
 Qed.
 #[export] Hint Resolve CplT_absorb : cplT.
 
-Lemma CplT_epoll_wait n t items s : CplT n s -> CplT n (fst (epoll_wait t items s)).
-Proof. intros H. unfold epoll_wait. destruct items; cbn [fst]; sproj; auto 8 with cplT. Qed.
+(* the wait: no live timer is due before it ends *)
+Definition wait_ok (n t : Z) (s : state) : Prop := Forall (fun x => n + t <= fst (snd x)) (timers s).
+
+Lemma CplT_wait n t s : wait_ok n t s -> CplT n s -> CplT n (log (EvWait t) s).
+Proof.
+  intros W [m [A [B C]]]. exists m. sproj. unfold tmon_run in *. cbn [mon_run]. rewrite A. cbn [tmon_step].
+  split; [|auto].
+  replace (forallb (fun x => tm_now m + t <=? tm_due (snd x)) (tm_tab m)) with true; [reflexivity|].
+  symmetry. apply forallb_forall. intros [t' x'] Hx. apply Z.leb_le. cbn [snd].
+  unfold wait_ok in W. rewrite B in W. rewrite Forall_forall in W.
+  specialize (W (t', tv x')). cbn [fst snd tv] in W. rewrite C. apply W.
+  unfold tview. apply (in_map (fun x => (fst x, tv (snd x)))) in Hx. exact Hx.
+Qed.
+
+Lemma CplT_epoll_wait n t items s : wait_ok n t s -> CplT n s -> CplT n (fst (epoll_wait t items s)).
+Proof.
+  intros W H. pose proof (CplT_wait n t s W H) as H1. unfold epoll_wait. cbn zeta.
+  destruct items; cbn [fst]; auto 8 with cplT.
+Qed.
+
+(* the time-out of run(): the distance from the sampled clock to the head of the sorted queue *)
+Lemma wait_ok_head now s :
+  SInv s -> wait_ok now (match queue s with (k, _) :: _ => k - now | [] => 0 end) s.
+Proof.
+  intros HI. unfold wait_ok. apply Forall_forall. intros [t' [et iv]] Hx. cbn [fst snd].
+  pose proof (In_alookup Z.eqb zeq t' (et, iv) (timers s) (si_tnd _ HI) Hx) as Hl.
+  pose proof (si_t2q _ HI _ _ _ Hl) as Hq. pose proof (si_sorted _ HI) as Hs.
+  destruct (queue s) as [|[k v] q']; [contradiction|].
+  destruct Hq as [Hq|Hq]; [inversion Hq; lia|].
+  destruct Hs as [Hs _]. rewrite Forall_forall in Hs. apply Hs in Hq. cbn [fst] in Hq. lia.
+Qed.
 
 Lemma CplT_pop_selected n s : CplT n s -> CplT n (fst (pop_selected s)).
 Proof. intros H. unfold pop_selected. destruct (selected s); cbn [fst]; auto with cplT. Qed.
 
-Lemma CplT_poll n t items s : CplT n s -> CplT n (fst (fst (poll t items s))).
+Lemma CplT_poll n t items s : wait_ok n t s -> CplT n s -> CplT n (fst (fst (poll t items s))).
 Proof.
-  intros H. unfold poll. destruct (selected s) eqn:E.
-  - pose proof (CplT_epoll_wait n t items s H) as H1. destruct (epoll_wait t items s) as [s1 items1]. cbn [fst] in H1.
+  intros W H. unfold poll. destruct (selected s) eqn:E.
+  - pose proof (CplT_epoll_wait n t items s W H) as H1. destruct (epoll_wait t items s) as [s1 items1]. cbn [fst] in H1.
     destruct (0 <? evcount s1); cbn [fst]; [auto with cplT|].
     pose proof (CplT_pop_selected n s1 H1) as H2. destruct (pop_selected s1); exact H2.
   - pose proof (CplT_pop_selected n s H) as H2. destruct (pop_selected s); exact H2.
@@ -247,14 +276,15 @@ Lemma CplT_run_loop fuel items n s : SInv s -> CplT n s -> exists n', CplT n' (r
 Proof.
   revert items n s. induction fuel as [|f IH]; intros items n s HI H; cbn [run_loop]; [exists n; auto with cplT|].
   cbn zeta.
-  destruct (CplT_timer_phase f (clk s) (log (EvNow (clk s)) s)) as [HI1 H1]; [apply SInv_log; exact HI | eapply CplT_now; eauto|].
-  set (s0 := timer_phase f (clk s) (log (EvNow (clk s)) s)) in *.
+  destruct (CplT_timer_phase f (clk s) (log (EvSel (sel_view (selected s))) (log (EvNow (clk s)) s))) as [HI1 H1];
+    [apply SInv_log; apply SInv_log; exact HI | apply CplT_log; [reflexivity | eapply CplT_now; eauto]|].
+  set (s0 := timer_phase f (clk s) (log (EvSel (sel_view (selected s))) (log (EvNow (clk s)) s))) in *.
   set (s1 := closing_phase f s0).
   assert (SInv s1) as HI2 by (apply SInv_closing_phase; exact HI1).
   assert (CplT (clk s) s1) as H2 by (apply CplT_closing_phase; exact H1).
   destruct (stuck s1); [eexists; exact H2|].
   match goal with |- context [poll ?t items s1] => set (tmo := t) end.
-  pose proof (SInv_poll tmo items s1 HI2) as HI3. pose proof (CplT_poll _ tmo items s1 H2) as H3.
+  pose proof (SInv_poll tmo items s1 HI2) as HI3. pose proof (CplT_poll _ tmo items s1 (wait_ok_head (clk s) s1 HI2) H2) as H3.
   destruct (poll tmo items s1) as [[s2 evt] items2]. cbn [fst] in HI3, H3.
   destruct evt as [[e fl]|].
   - destruct (fl_is_none fl).
